@@ -45,10 +45,16 @@ impl<'a> UnusedLiteralVisitor<'a> {
         );
 
         if is_literal {
-            let fix = Autofix {
-                description: "Remove unused value".to_owned(),
-                position: self.get_line_position(&expr.position),
-                new_text: String::new(),
+            // Only offer to delete the literal when evaluating it
+            // can't do anything: `[foo()]` still calls `foo`.
+            let fixes = if has_no_side_effects(expr) {
+                vec![Autofix {
+                    description: "Remove unused value".to_owned(),
+                    position: self.get_line_position(&expr.position),
+                    new_text: String::new(),
+                }]
+            } else {
+                vec![]
             };
 
             self.unused_literals.push(Diagnostic {
@@ -56,7 +62,7 @@ impl<'a> UnusedLiteralVisitor<'a> {
                 severity: Severity::Warning,
                 message: ErrorMessage(vec![Text("Unused value.".to_owned())]),
                 position: expr.position.clone(),
-                fixes: vec![fix],
+                fixes,
             });
         }
     }
@@ -79,6 +85,15 @@ impl<'a> UnusedLiteralVisitor<'a> {
             .map(|pos| position.end_offset + pos + 1)
             .unwrap_or(src.len());
 
+        // If there's anything else on these lines (e.g. `1 foo()`),
+        // only remove the literal itself.
+        let only_whitespace = |s: &str| s.chars().all(|c| c.is_whitespace());
+        if !only_whitespace(&src[line_start..position.start_offset])
+            || !only_whitespace(&src[position.end_offset..line_end])
+        {
+            return position.clone();
+        }
+
         // Create a new position spanning the entire line
         let mut line_position = position.clone();
         line_position.start_offset = line_start;
@@ -86,6 +101,29 @@ impl<'a> UnusedLiteralVisitor<'a> {
         line_position.column = 0;
 
         line_position
+    }
+}
+
+/// Is `expr` built only from literals and variables, so evaluating
+/// it has no effect other than producing a value?
+fn has_no_side_effects(expr: &Expression) -> bool {
+    match &expr.expr_ {
+        Expression_::IntLiteral(_)
+        | Expression_::FloatLiteral(_)
+        | Expression_::StringLiteral(_)
+        | Expression_::Variable(_) => true,
+        Expression_::Parentheses(paren) => has_no_side_effects(&paren.expr),
+        Expression_::ListLiteral(items) => {
+            items.iter().all(|item| has_no_side_effects(&item.expr))
+        }
+        Expression_::TupleLiteral(items) => items.iter().all(|item| has_no_side_effects(item)),
+        Expression_::DictLiteral(items) => items
+            .iter()
+            .all(|kv| has_no_side_effects(&kv.key) && has_no_side_effects(&kv.value)),
+        Expression_::StructLiteral(_, fields) => {
+            fields.iter().all(|(_, value)| has_no_side_effects(value))
+        }
+        _ => false,
     }
 }
 
